@@ -58,7 +58,8 @@ SERVE = "serve_forever"
 SHUTDOWN = "shutdown"
 CLOSE = "server_close"
 CLIENT = "client"
-KINDS = (SERVE, SHUTDOWN, CLOSE, CLIENT)
+IS_SERVING = "is_serving"  # as an interval call (threaded servers: the answer is computed in the server thread and travels back)
+KINDS = (SERVE, SHUTDOWN, CLOSE, CLIENT, IS_SERVING)
 
 # canonical outcome names
 NONE = "None"
@@ -97,7 +98,11 @@ def _set(ops: tuple, idx: int, st: Any) -> tuple:
     return ops[:idx] + ((opid, kind, st),) + ops[idx + 1 :]
 
 
-def _decide(c: Config, idx: int, allow_busy: bool) -> Iterator[Config]:
+_TRUE_IN = (SERVING, STOPPING)
+_FALSE_IN = (STOPPED, STARTING, STOPPING, ABORTING)
+
+
+def _decide(c: Config, idx: int, allow_busy: bool, true_in: Iterable[str] = _TRUE_IN, false_in: Iterable[str] = _FALSE_IN) -> Iterator[Config]:
     """the transitions a pending op can take by itself"""
     phase, closed, runner, ops = c
     opid, kind, st = ops[idx]
@@ -121,6 +126,12 @@ def _decide(c: Config, idx: int, allow_busy: bool) -> Iterator[Config]:
             if phase in (STARTING, ABORTING) and allow_busy:
                 yield Config(phase, closed, runner, _set(ops, idx, "busy"))
             yield Config(STOPPING if phase == SERVING else phase, True, runner, _set(ops, idx, "applied"))
+    elif kind == IS_SERVING:
+        if st == "new":  # the value is the one of some instant between invoke and return
+            if phase in true_in:
+                yield Config(phase, closed, runner, _set(ops, idx, "True"))
+            if phase in false_in:
+                yield Config(phase, closed, runner, _set(ops, idx, "False"))
     elif kind == CLIENT:
         if st == "new":
             if phase != STOPPED:  # late start-up included: the first listener already serves while the next one is being started
@@ -129,9 +140,9 @@ def _decide(c: Config, idx: int, allow_busy: bool) -> Iterator[Config]:
                 yield Config(phase, closed, runner, _set(ops, idx, FAILED))
 
 
-def _successors(c: Config, allow_busy: bool) -> Iterator[Config]:
+def _successors(c: Config, allow_busy: bool, true_in: Iterable[str] = _TRUE_IN, false_in: Iterable[str] = _FALSE_IN) -> Iterator[Config]:
     for idx in range(len(c.ops)):
-        yield from _decide(c, idx, allow_busy)
+        yield from _decide(c, idx, allow_busy, true_in, false_in)
     phase, closed, runner, ops = c
     if phase in (STARTING, STOPPING, ABORTING):
         ridx = next(i for i, o in enumerate(ops) if o[0] == runner)
@@ -156,6 +167,8 @@ _ALLOWED = {
     (CLOSE, "busy"): (BUSY_ERROR,),
     (CLIENT, SERVED): (SERVED,),
     (CLIENT, FAILED): (FAILED,),
+    (IS_SERVING, "True"): ("True",),
+    (IS_SERVING, "False"): ("False",),
 }
 
 
@@ -177,7 +190,7 @@ class LifecycleModel:
         todo = list(seen)
         while todo:
             c = todo.pop()
-            for n in _successors(c, self.allow_busy):
+            for n in _successors(c, self.allow_busy, self.true_in, self.false_in):
                 if n not in seen:
                     seen.add(n)
                     todo.append(n)
@@ -248,6 +261,8 @@ class LifecycleModel:
             return "serving-server-answers-clients"
         if kind == CLIENT and outcome == SERVED:
             return "client-answered-only-while-serving"
+        if kind == IS_SERVING:
+            return "is_serving-consistent-with-lifecycle"
         return "outcome-not-allowed"
 
     def observe_up(self, opid: Any, seq: Any = None) -> None:
